@@ -31,7 +31,8 @@ ENCODED = [
 BOUNDS = {
     "quick": "n<=3 rows x 3 columns of symbolic cells, ndarray and DataFrame containers, every window 0<=from<=to<=n, every "
              "column choice; LabelSwap/LabelJoin with symbolic integer classes; LabelProbability/Dirichlet with concrete labels "
-             "in {0,1,2}, symbolic feature cells and symbolic probabilities, n<=4",
+             "in {0,1,2}, symbolic feature cells and symbolic probabilities, n<=4; the Dirichlet alpha dict lists the classes in descending "
+             "order with distinct values",
     "thorough": "n<=4 rows (5 for the label resampling injectors)",
 }
 OUTSIDE = ("FeatureCoverInjector (pandas groupby(...).sample internals); that resampled class frequencies *statistically* follow "
@@ -254,17 +255,21 @@ def body_label_probability(ctx, n, container, labels, spec_classes, dirichlet):
         rec["picks"] = picks
         return np.array(picks, dtype=int)
 
+    alpha_order = list(reversed(spec_classes))  # a dict whose keys are *not* in ascending order
+    alpha = {k: float(spec_classes.index(k) + 1) for k in alpha_order}
+
     def dirich(alpha_values):
         rec["alpha"] = list(alpha_values)
-        return [probs[k] for k in spec_classes]
+        # the i-th drawn probability belongs to the class whose alpha is the i-th value handed over
+        by_value = {v: k for k, v in alpha.items()}
+        return [probs[by_value[v]] for v in alpha_values]
 
     shim = stubs.NpShim(random=type("R", (), {"choice": staticmethod(choice), "dirichlet": staticmethod(dirich)}))
     given = dict(probs)
     with rebind(M, np=shim):
         if dirichlet:
-            alpha = {k: float(i + 1) for i, k in enumerate(spec_classes)}
             out = M.LabelDirichletInjector()(data, f, t, _col(container, col), alpha)
-            ctx.prove(rec.get("alpha") == [alpha[k] for k in spec_classes], "dirichlet-gets-the-alpha-values")
+            ctx.prove(sorted(rec.get("alpha", [])) == sorted(alpha.values()), "dirichlet-gets-the-alpha-values")
         else:
             out = M.LabelProbabilityInjector()(data, f, t, _col(container, col), probs)
     _same_container(ctx, data, out, snapshot)
